@@ -151,18 +151,23 @@ def identity_pairs():
                 yield order
 
 
-def check_identity_pair(name, order):
+def check_identity_pair(name, order, split=False):
+    """split: the literals alternate between worlds 0 and 1 -- a denial at another world contradicts nothing."""
     w0 = 0 if R.is_modal(name) else None
-    items = [(s, None, w0) for _, s in order]
-    label = ','.join(n for n, _ in order)
+    items = [(s, None, (i % 2) if split else w0) for i, (_, s) in enumerate(order)]
+    label = ','.join(n + (f'@w{i % 2}' if split else '') for i, (n, _) in enumerate(order))
     fam = R.base_of(name) + '*'
     try:
         tab, b = build_branch(name, items)
     except Exception as e:
         return [(f'C05|raises|{fam}|{type(e).__name__}', f'{name} [{label}]: {e!r}')]
     names = {n for n, _ in order}
-    should_close = bool(names & {'a=b', 'b=a'}) and bool(names & {'~a=b', '~b=a'})
-    skey = '+'.join(sorted(names))
+    if split:
+        at = lambda k: {n for i, (n, _) in enumerate(order) if i % 2 == k}
+        should_close = any(bool(at(k) & {'a=b', 'b=a'}) and bool(at(k) & {'~a=b', '~b=a'}) for k in (0, 1))
+    else:
+        should_close = bool(names & {'a=b', 'b=a'}) and bool(names & {'~a=b', '~b=a'})
+    skey = '+'.join(sorted(names)) + ('|two-worlds' if split else '')
     if b.closed and not should_close:
         return [(f'C05|over-eager|{fam}|{skey}', f'{name} [{label}]: closed, but the literals are classically satisfiable')]
     if not b.closed and should_close:
@@ -170,8 +175,8 @@ def check_identity_pair(name, order):
     if not b.closed:
         try:
             model = get_logic(name).Model().read_branch(b)
-            kw = dict(world=w0) if w0 is not None else {}
-            for n, s in order:
+            for i, (n, s) in enumerate(order):
+                kw = dict(world=(i % 2) if split else w0) if w0 is not None else {}
                 if str(model.value_of(A.to_lib(s), **kw)) != 'T':
                     return [(f'C05|model-value|{fam}|{skey}', f'{name} [{label}]: model does not make {n} true')]
         except Exception as e:
@@ -231,6 +236,8 @@ def obligations(name):
             yield ('extra', order)
         for order in identity_pairs():
             yield ('idpair', order)
+            if R.is_modal(name) and len(order) >= 2:
+                yield ('idpair-split', order)
 
 
 def shards(tier, seed):
@@ -252,7 +259,7 @@ def run_shard(shard, acc):
                 sample = f'{name}: {A.show(subj)} with literals [{", ".join(cname(c) for c in cons)}]' if first and len(cons) > 1 else None
             else:
                 order = ob[1]
-                res = (check_classical_extra if ob[0] == 'extra' else check_identity_pair)(name, order)
+                res = check_classical_extra(name, order) if ob[0] == 'extra' else check_identity_pair(name, order, ob[0] == 'idpair-split')
                 key = (name, ob[0], [n for n, _ in order])
                 case = dict(kind=ob[0], logic=name, order=[[n, A.to_json(s)] for n, s in order])
                 sample = None
@@ -267,5 +274,7 @@ def replay(case):
     if case['kind'] == 'set':
         return check_set(case['logic'], case['subject_kind'], A.from_json(case['subject']),
                          [tuple(c) for c in case['constraints']], case['worlds'], tuple(case['crowd']) if case.get('crowd') else None)
-    f = check_classical_extra if case['kind'] == 'extra' else check_identity_pair
-    return f(case['logic'], [(n, A.from_json(s)) for n, s in case['order']])
+    order = [(n, A.from_json(s)) for n, s in case['order']]
+    if case['kind'] == 'extra':
+        return check_classical_extra(case['logic'], order)
+    return check_identity_pair(case['logic'], order, case['kind'] == 'idpair-split')
